@@ -42,6 +42,7 @@ REG = {
 
 REG["C16"] = {
     "thorough_extra": ["replay"],
+    "quick_extra": ["replay"],
     "units": ["config"],
     "scope": "TestCaseConfig::{with_defaults_from, with_overrides_from}, DocumentConfig::{with_defaults_from, with_overrides_from}: "
              "every key and every individual environment variable comes from the higher layer when it sets it (tc_layer/env_layer/doc_layer); "
@@ -55,7 +56,9 @@ REG["C16"] = {
         "The command-line layer (bin/commands/test.rs with_overrides_from(&testcase_config)) is checked textually only (anchor lost => exit 2)",
         "field-access shims TestCaseShim/ContextShim stand for TestCase.config / Context.config",
     ],
-    "not_decided": ["that every command-line flag is translated into the cli layer (bin/commands/root.rs)", "the values of the format defaults"],
+    "not_decided": ["that every command-line flag is translated into the cli layer (bin/commands/root.rs)", "the values of the format defaults",
+                    "that a key which is WRITTEN in a layer is read as set (serde_yaml / humantime deserializers): BOUNDED cross-check only — verif-replay config reads inline configurations and front "
+                    "matter with timeouts 0s / 0ms / 5s / 1m 1s / absent and layers every pair"],
     "callsites": [
         ("src/bin/commands/test.rs", ".with_overrides_from(&testcase_config)"),
         ("src/bin/commands/test.rs", "test.config.with_overrides_from(&document_config)"),
@@ -114,17 +117,20 @@ ESC_TRUST = [
 ]
 REG["C04"] = {
     "thorough_extra": ["replay"],
+    "quick_extra": ["replay"],
     "units": ["escaping"],
     "scope": "equal: matches iff line == expr + LF; no-eol: iff line == expr; escaped: matches iff stored bytes == line without trailing LFs, and the stored bytes are "
              "decode(expr) = resolve(unesc(expr)) (both decoders verified against recursive specs); regex: the pattern handed to the regex crate is ^(?:cleaned)$ and the candidate is "
-             "the line without trailing LFs; glob (wildmatch) and Cram glob: candidate is lossy/bytes of the line without trailing LFs. newline helpers trim_newlines/assure_newline/ends_in_newline verified. "
+             "the line without trailing LFs; glob (wildmatch) and Cram glob: candidate is lossy/bytes of the line without trailing LFs. Cram glob translation table (glob_to_regex_string, loop invariant against the recursive spec g2r): the compiled pattern is `^` + per-token translation + `$` with `?` -> `.`, `*` -> `.*`, `\\*` `\\?` `\\\\` kept as escaped literals and every other character handed to regex::escape one at a time; glob_to_regex compiles exactly that text; CramGlobRule::make translates the expression itself or, when marked ` (escaped)`, its decoded text. newline helpers trim_newlines/assure_newline/ends_in_newline verified. "
              "EscapedRule::make stores decode(expression minus a trailing ` (no-eol)`); GlobRule::make hands wildmatch the expression itself or, when it carries an ` (escaped)`/` (esc)` marker "
              "(expression_as_escaped == as_escaped, all str slices proved to be on char boundaries), its decoded text (apply_escaped_filter_utf8).",
     "assumptions": ESC_TRUST + [
         "the matching semantics of the regex and wildmatch crates (uninterpreted regex_lang / wild_lang): `?` = one char, `*` = any run, and L(^(?:e)$) = whole-string L(e) are NOT proved",
         "the three best-effort regex clean-ups are uninterpreted (their effect on L(e) is not specified by the property)",
     ],
-    "not_decided": ["CramGlobRule::make and the glob_to_regex_string translation table", "kind dispatch in RuleRegistry (regex-based, C08)"],
+    "not_decided": ["the wildmatch / regex matching semantics (incl. that `.` is one CHARACTER, not one byte, and what regex::escape returns): BOUNDED cross-check only — verif-replay glob N runs every glob of up to N "
+                    "characters over {a, é, ?, *} against every line of up to 3 characters over {a, b, é, 😀}, with and without final newline, through GlobRule and CramGlobRule and compares with the "
+                    "statement's reading (`?` exactly one character, `*` any run) (quick N=4: 57,970 cases; thorough N=6)", "kind dispatch in RuleRegistry (regex-based, C08)"],
 }
 
 REG["C11"] = {
@@ -146,6 +152,8 @@ REG["C11"] = {
 }
 
 REG["C06"] = {
+    "thorough_extra": ["replay"],
+    "quick_extra": ["replay"],
     "units": ["markdown", "lineparser", "mdparse"],
     "scope": "PARTIAL — the tokenizer: (1) extract_code_block_start(line) equals the spec `cbs`: exactly ``` or a run of >= 3 backticks followed by an info string, split at the first `{` "
              "into (backticks, language, config); all str slices are proved to be taken at char boundaries (Rust's panic condition is the helper's precondition); "
@@ -159,8 +167,12 @@ REG["C06"] = {
         "`while let` over chars(): termination of extract_code_block_start unproved",
         "the number of lines fits usize (precondition of next())",
     ],
-    "not_decided": ["MarkdownParser::parse itself: titles (regex \\p{L}+, HEADER_LINE), LineParser's body grammar and exit-code regex, YAML front-matter / inline config parsing (serde_yaml), "
-                    "the 1-based line number of the `$` line (LineParser)", "CRLF handling of str::lines", "that language tokens are compared as written (`languages.contains`)"],
+    "not_decided": ["which lines are titles (regexes ^\\p{L}+ and HEADER_LINE; uninterpreted `title_of` in the parse contract) and which are exit-code lines (uninterpreted `exit_code_of`): "
+                    "BOUNDED cross-check only — verif-replay leaves markdown puts 21 candidate title lines (Latin, umlaut, Cyrillic, CJK, headings with tabs / several spaces, `#nospace`, list items, quotes, "
+                    "digits ...) between a heading and a scrut block and 28 candidate exit-code lines at the end of a block through the real MarkdownParser and compares title, line number, exit code "
+                    "and expectations with an independent reading; verif-replay markdown: six documents (empty block, multi-byte info string, unterminated constructs)",
+                    "YAML front-matter / inline config parsing (serde_yaml: an uninterpreted partial function of the text)", "CRLF handling of str::lines",
+                    "that language tokens are compared as written (`languages.contains`)"],
 }
 
 REG["C13"] = {
@@ -187,6 +199,8 @@ REG["C13"] = {
 }
 
 REG["C07"] = {
+    "thorough_extra": ["replay"],
+    "quick_extra": ["replay"],
     "units": ["lineparser", "cram"],
     "scope": "LineParser (the Cram-style body grammar shared by both formats): add_testcase_body / end_testcase / flush / has_testcase_body / set_* equal the abstract state "
              "machine s_body / s_end / ... (a `$ ` line starts a command and, when one is already collected, ends the previous test; `> ` continues it; `[n]` is the exit code, once; "
@@ -204,7 +218,9 @@ REG["C07"] = {
         "an empty title. The statement's 'nearest preceding unindented title line' is read in that sense.",
         "the number of lines is below usize::MAX (Vec capacity)",
     ],
-    "not_decided": ["which lines the expectation regex accepts and how it splits them (C08)", "the exit-code regex", "CRLF handling of str::lines"],
+    "not_decided": ["which lines the expectation regex accepts and how it splits them (C08)", "the exit-code regex: BOUNDED cross-check only — verif-replay leaves cram puts 28 candidate lines "
+                    "([0] [01] [2147483647] [2147483648] [-1] [+3] [ 1] [1][2] [١] ...) as the last body line of a Cram test through the real CramParser and compares exit code "
+                    "and expectations with an independent reading (`[` ASCII digits `]`, fits i32)", "CRLF handling of str::lines"],
 }
 
 REG["C08"] = {
